@@ -226,8 +226,9 @@ def real_expand(lib_src, page_src, g, lib2_src=None):
     if lib2 is not None:
         ctx.addGlobal("mac2", lib2.macros)
     ctx.addGlobal("own", page.macros)
-    o = io.StringIO()
-    page.expand(ctx, o)
+    o = talgen.Sink()
+    with talgen.time_limit():
+        page.expand(ctx, o)
     return o.getvalue(), ctx
 
 
